@@ -179,6 +179,12 @@ class Gen:
             pre = ["sub %d %d 0 0 0 - %d" % (t, ha, r.randrange(2)), "sub %d %d 1 0 0 - %d" % (t, hc, b)]
             r.shuffle(pre)
             lines += pre + ["pub %d %d 0 bg" % (t, r.randrange(12)), "count %d" % t, "pub %d %d 0 bg" % (t, r.randrange(12))]
+        if r.random() < 0.25:
+            # the last registration of a type goes away by Unsubscribe: queries must say "none" afterwards, and a later
+            # subscription is found again
+            t = self.ty(); h = r.choice([0, 1, 6, 7, r.randrange(12)])
+            lines += ["clear %d" % t, "sub %d %d 0 0 0 - %d" % (t, h, r.randrange(2)), "unsub %d %d" % (t, h), "has %d" % t, "count %d" % t,
+                      "pub %d %d 0 bg" % (t, r.randrange(12))]
         n = r.randint(4, 28)
         for i in range(n):
             x = r.random()
